@@ -25,7 +25,8 @@ PROPS_MODULES = ['CfVerif.Props.C17']
 DRIVER = 'Driver/C17.lean'
 REQUIRED_THEOREMS = ['CfVerif.C17.' + n for n in (
     'mc_ends_stopped', 'mc_ends_stopped_current', 'mc_no_deadlock', 'mc_unrepaired_counterexample_takeoff',
-    'mc_unrepaired_counterexample_land', 'height_integrates', 'primitive_displacement', 'go_is_move',
+    'mc_unrepaired_counterexample_land', 'hover_stream_period', 'hover_stream_period_current', 'height_integrates',
+    'primitive_displacement', 'sleep_is_exact', 'go_is_move',
     'turn_displacement', 'circle_displacement', 'hl_goto_targets_position_with_duration', 'hl_move_is_goto', 'hl_position_is_sum',
     'hl_ends_stopped', 'hl_ends_stopped_current', 'hl_unrepaired_counterexample', 'gen_mc_protected', 'gen_hl_protected', 'gen_axes')]
 TRUSTED = ['harness/corr/c17.py extractor + correspondence',
@@ -591,12 +592,23 @@ def digest_mc(res, state):
     sched, events, params = [], [], []
     last_clock = 0.0
     threads = set()
+    ties = 0
+    reads = []             # was the height read by land() stale (a set-point put by the main thread not yet taken by the thread)?
+    pending = 0
     for tid, kind, label, info in res.trace:
         if tid == -1 and kind == 'clock':
             if info - last_clock > 1e-7:       # a float-rounding "tie" is a tie of the exact model: no time passes
                 sched.append('2')
+            else:
+                ties += 1
             last_clock = info
         elif tid == 0:
+            if kind == 'put':
+                pending += 1
+            elif kind == 'trace':
+                reads.append('stale' if pending else 'fresh')
+            elif kind == 'start':
+                pending = 0
             if kind in MAIN_OPS:
                 sched.append('0')
             elif kind == 'emit' and info[0] in MAIN_EMITS:
@@ -609,6 +621,8 @@ def digest_mc(res, state):
             threads.add(tid)
             if kind == 'get':
                 sched.append('1')
+                if info is None:
+                    pending = max(0, pending - 1)
             elif kind == 'emit' and info[0] == 'hover':
                 events.append((info[1], 'H') + tuple(info[2:]))
     mc = state.get('mc')
@@ -616,7 +630,7 @@ def digest_mc(res, state):
     alive = bool(th is not None and th.is_alive()) if res.outcome != 'ok' else False
     return {'exc': exc_name(res.exc), 'outcome': res.outcome, 'alive': res.outcome == 'step-limit' or alive,
             'flying': bool(getattr(mc, '_is_flying', False)), 'sched': ''.join(sched) or '-', 'events': events, 'params': params,
-            'now': res.now, 'deaths': [(n, repr(e)) for n, e in res.deaths]}
+            'now': res.now, 'deaths': [(n, repr(e)) for n, e in res.deaths], 'ties': ties, 'reads': reads}
 
 
 class McRunner:
@@ -907,7 +921,7 @@ def gen_hl_prim(rng, odd=0.1):
         sg = [rng.choice([1, -1]) for _ in range(3)]
         return ('mv', sg[0] * t[0] * s, sg[1] * t[1] * s, sg[2] * t[2] * s, gen_vel(rng, odd))
     if k < 0.68:
-        return ('goto', rng.choice([0.0, 0.5, -1.0, 1.5]), rng.choice([0.0, 0.25, -0.75]), rng.choice([None, 0.5, 1.0, 0.25, -0.25]), gen_vel(rng, odd))
+        return ('goto', rng.choice([0.0, 0.5, -1.0, 1.5]), rng.choice([0.0, 0.25, -0.75]), rng.choice([None, 0.5, 1.0, 0.25, -0.25, 0.0]), gen_vel(rng, odd))
     if k < 0.76:
         return ('sdv', rng.choice([0.25, 0.5, 1.0, 2.0]) if rng.random() > odd else rng.choice([0.0, -1.0]))
     if k < 0.82:
@@ -918,7 +932,7 @@ def gen_hl_prim(rng, odd=0.1):
         return ('wait', rng.choice(WAIT) if rng.random() > odd / 2 else -1.0)
     if k < 0.97:
         return ('land', rng.choice([None, 0.25]), rng.choice([None, 0.125]))
-    return ('to', rng.choice([None, 0.75]), rng.choice([None, 0.25]))
+    return ('to', rng.choice([None, 0.75, 0.0]), rng.choice([None, 0.25]))
 
 
 def gen_hl_program(rng):
@@ -1001,6 +1015,7 @@ def correspond(ctx):
                 for d, res in r.explore(prog, mode, dh, connected, max_preemptions=2, max_runs=60 if thorough else 25):
                     runs.append((d, res, 'dfs'))
                     k += 1
+                ctx.count('mc:dfs-tree-enumerated-completely' if r.last_complete else 'mc:dfs-cut-at-max-runs')
             seen = set()
             for d, res, how in runs:
                 if d['sched'] in seen:
@@ -1030,6 +1045,9 @@ def correspond(ctx):
         ctx.count('mc:exc:' + d['exc'])
         ctx.count('mc:outcome:' + d['outcome'])
         ctx.count('mc:events', len(d['events']))
+        ctx.count('mc:float-ties-merged', d['ties'])
+        for rd in d['reads']:
+            ctx.count('mc:land-height-read:' + rd)
         if any(a[0] == b[0] and a[1] == b[1] == 'H' for a, b in zip(d['events'], d['events'][1:])):
             ctx.count('mc:same-instant-hovers')
         diff = diff_mc(parse_mc_reply(rep), d)
